@@ -62,6 +62,8 @@ class CFG(object):
         for n in ast.walk(astnode):
             if isinstance(n, (ast.Call, ast.Subscript, ast.Raise, ast.Starred)):
                 return True
+            if isinstance(n, ast.Assign) and any(isinstance(t, (ast.Tuple, ast.List)) for t in n.targets) and not isinstance(n.value, (ast.Tuple, ast.List)):
+                return True         # unpacking a value of unknown shape (ValueError / TypeError)
             if isinstance(n, (ast.FunctionDef, ast.Lambda)) and n is not astnode:
                 continue
         return False
